@@ -23,9 +23,9 @@ RULE = (
     "conjunctive chain and source/sink edges; bidirectional disjunctive edges "
     "between different-job operations sharing an eligible machine; the "
     "op-machine, op-job, machine-machine, job-job, same-job and global blocks "
-    "of each agent-task variant). Same-job operations sharing a machine: the "
-    "chain edge must be typed conjunctive, other same-job disjunctive edges "
-    "are neither required nor forbidden. Solved graph: positive-duration "
+    "of each agent-task variant). Same-job operations sharing a machine also "
+    "get both disjunctive edges, except that the job-chain edge itself is "
+    "typed conjunctive. Solved graph: positive-duration "
     "instance x complete feasible schedule that is dispatcher-built, CP-SAT "
     "built, or right-shifted (feasible, not semi-active): exact edge set, "
     "acyclic (own Kahn sort), longest duration-weighted source-sink path (own "
@@ -35,7 +35,7 @@ RULE = (
 )
 BUDGET = {"quick": 1500, "thorough": 15000}
 ASSUMPTIONS = [
-    "same-job disjunctive edges are left unspecified (module docstring and property text differ)",
+    "same-job operations sharing a machine are linked by disjunctive edges too (the property text says 'operations sharing a machine'; the module docstring says 'different jobs' - the property is the specification); a DiGraph holds one edge per ordered pair, so the chain edge is conjunctive",
 ]
 
 
@@ -79,11 +79,10 @@ def expected_graph(inst, builder):
         for a in flat:
             for b in flat:
                 if oid[a] < oid[b] and set(m[a[0]][a[1]]) & set(m[b[0]][b[1]]):
-                    if a[0] != b[0]:
-                        both(oid[a], oid[b], "DISJUNCTIVE")
-                    else:
-                        opt.add((oid[a], oid[b]))
-                        opt.add((oid[b], oid[a]))
+                    # the statement says "between operations sharing a
+                    # machine", so same-job pairs are included; the chain
+                    # edge (j,p)->(j,p+1) is re-typed conjunctive below
+                    both(oid[a], oid[b], "DISJUNCTIVE")
         for j, row in enumerate(d):
             for p in range(1, len(row)):
                 req[(oid[(j, p - 1)], oid[(j, p)])] = "CONJUNCTIVE"
